@@ -51,6 +51,7 @@ fn render_regions(p: &gen_sv::V95Program, rng: &mut Rng, replace: Option<(usize,
         text.push_str(&format!("`begin_keywords \"{}\"\n", v));
     }
     let mut versions = Vec::new();
+    let mut left_open = false;
     for (mi, (s, e)) in p.module_ranges.iter().enumerate() {
         let own: Option<&'static str> = if r.chance(1, 2) { Some(VERSIONS[r.below(VERSIONS.len())].0) } else { None };
         if let Some(v) = own {
@@ -69,14 +70,18 @@ fn render_regions(p: &gen_sv::V95Program, rng: &mut Rng, replace: Option<(usize,
             text.push_str(if nl && r.chance(2, 3) { "\n" } else { " " });
         }
         text.push('\n');
-        if own.is_some() {
+        // the last region of a text may stay open (the text ends inside it)
+        let last = mi + 1 == p.module_ranges.len();
+        let leave_open = last && r.chance(1, 6);
+        left_open = leave_open;
+        if own.is_some() && !leave_open {
             text.push_str("`end_keywords\n");
         }
         if mi + 1 < p.module_ranges.len() && r.chance(1, 5) {
             text.push_str(*r.pick(&["`resetall\n", "`timescale 1ns/1ns\n", "`celldefine\n"]));
         }
     }
-    if outer.is_some() {
+    if outer.is_some() && !left_open {
         text.push_str("`end_keywords\n");
     }
     Region { text, spans, versions }
@@ -85,6 +90,15 @@ fn render_regions(p: &gen_sv::V95Program, rng: &mut Rng, replace: Option<(usize,
 fn parse(text: &str) -> Result<Result<SyntaxTree, Error>, LibPanic> {
     parse_str(Gram::Sv, text, Path::new("c13.sv"), &Cfg::default()).map(|r| r.map(|x| x.0))
 }
+
+/// calls that end with keywords regions open or are rejected inside one (the next call starts from the default set)
+const EARLIER: &[&str] = &[
+    "`begin_keywords \"1364-1995\"\nmodule m; endmodule\n",
+    "`begin_keywords \"1364-2001\"\nmodule m; wire logic; endmodule\n",
+    "`begin_keywords \"1364-2001-noconfig\"\nmodule m; wire w = ; endmodule\n",
+    "`begin_keywords \"1800-2005\"\n`begin_keywords \"1364-2005\"\nmodule m; endmodule\n`end_keywords\n",
+    "module m; endmodule\n`begin_keywords \"1364-1995\"\n",
+];
 
 pub fn run_case(env: &Env, ctx: &mut Ctx, idx: u64) {
     let tables = KwTables::load(&format!("{}/corpus/keywords.txt", env.verif));
@@ -167,6 +181,11 @@ pub fn run_case(env: &Env, ctx: &mut Ctx, idx: u64) {
     };
     let m = render_regions(&p, &mut lr.clone(), Some((np.tok, &word)));
     ctx.count("mutation_pairs", 1);
+    if rng.chance(1, 4) {
+        // the thread has just finished a call that left a keywords region open
+        let _ = parse(*rng.pick(EARLIER));
+        ctx.count("mutation_pairs_after_an_open_region", 1);
+    }
     ctx.seen("positions", np.what);
     let r = match parse(&m.text) {
         Err(_) => {
